@@ -222,6 +222,11 @@ def evaluate(case):
             for k in order:
                 by_dir.setdefault(os.path.dirname(k), []).append(os.path.basename(k))
             for d, names in by_dir.items():
+                try:
+                    S.subtree(tree, d)
+                except KeyError:
+                    res.fail("page-in-a-directory-the-input-does-not-have", f"pages {names} under {d!r}")
+                    continue
                 # sorted by source file name; page names are stems, compare via the source names
                 src_names = sorted([n for n in (S.subtree(tree, d)["files"] if not lone else {top_files[0]: 1}) if T.is_cmake(n)] +
                                    (["zz_link.cmake"] if link_dir is not None and d == link_dir else []))
